@@ -10,8 +10,8 @@
    list, per-codec and per-hash counts in ascending key order, roots-present = every root, with
    its duplicates, is the CID of some block).
    The model is the code as repaired by notes/fixes/C13-*.patch (see Inspect.v, "FIX"). *)
-From GoCar Require Import Bytes Varint Cid Header Frame V2Header Scan CliCmds Inspect.
-From GoCarProofs Require Import CidFacts ScanFacts ScanSound ScanTrunc InspectFacts InspectC13 InspectQuick InspectCli InspectHistory InspectFull.
+From GoCar Require Import Bytes Varint Cid Header Frame V2Header Scan C02Extra CliCmds Inspect.
+From GoCarProofs Require Import CidFacts ScanFacts ScanSound ScanTrunc InspectFacts InspectC13 InspectQuick InspectCli InspectHistory InspectFull InspectViews.
 
 (* For every hash oracle, header decoder, option set (ZeroLengthSectionAsEOF, header limit,
    section limit up to go-cid's 32 MiB stream-parser cap) and EVERY byte string NewReader
@@ -190,3 +190,19 @@ Theorem C13_full_validation_reports_a_corrupted_digest_byte :
       = Err e.
 Proof. exact inspect_reports_a_flipped_digest_byte. Qed.
 Print Assumptions C13_full_validation_reports_a_corrupted_digest_byte.
+
+(* ---- round 6: views handed out by a Reader are positioned views ------------------------------------ *)
+(* DataReader of a CARv1 and IndexReader are internal io.offsetReadSeeker values (model: C02Extra.ors,
+   tied to the code by kind c02ors).  NewOffsetReadSeeker over such a value ([ors_nested]) starts at the
+   parent's base + off whatever was done to the parent as a stream before ([ors_run] of any operations),
+   and delivers the underlying bytes from there -- so a Reader opened on a consumed DataReader /
+   IndexReader value sees what a Reader on a fresh view sees (the driver checks exactly that: clause
+   reused-view-differs-from-fresh-view). *)
+Theorem C13_nested_view_does_not_depend_on_the_parents_cursor :
+  forall data parent ops off n k,
+    ors_nested (ors_run data parent ops) off = ors_nested parent off /\
+    fst (fst (ors_step data (ors_nested parent off) (OrRead n))) = take n (drop (or_base parent + off) data) /\
+    fst (fst (ors_step data (ors_nested parent off) (OrReadAt n k)))
+    = take n (drop (k + (or_base parent + off)) data).
+Proof. exact ors_nested_view. Qed.
+Print Assumptions C13_nested_view_does_not_depend_on_the_parents_cursor.
